@@ -117,6 +117,8 @@ def _observe(spec: Dict[str, Any], dispatcher: Any = None, text: Optional[str] =
         kw = dict(dispatcher_kwargs)
         if 'max_batch_size' in spec:
             kw['max_batch_size'] = spec['max_batch_size']
+        if spec.get('sequential') and kind == 'async':
+            kw['concurrent_batch'] = False      # the async dispatcher's documented sequential mode for batches
         if spec.get('codec', 'default') != 'default':
             from pbt import codecs
             kw.update(codecs.kwargs_for(spec['codec'], 'server'))
